@@ -28,6 +28,7 @@ type vf12Payload struct {
 	MaxReaders string `json:"maxReaders,omitempty"`
 	RDA        string `json:"rda,omitempty"`
 	Override   string `json:"override,omitempty"`
+	Ports      string `json:"ports,omitempty"` // a list-typed path parameter: rtspUDPSourcePortRange
 	Bad        string `json:"bad"`
 }
 
@@ -40,6 +41,25 @@ type vf12Op struct {
 type vf12PathView struct {
 	MaxReaders string `json:"maxReaders"`
 	Override   string `json:"override"`
+	Ports      string `json:"ports"`
+}
+
+var vf12Ports = map[string][]uint{"a": {10000, 10100}, "b": {20000, 20100}, "def": {32768, 60999}}
+
+// vf12PortsName names a rtspUDPSourcePortRange value read back through the API
+func vf12PortsName(x any) string {
+	l, ok := x.([]any)
+	if !ok || len(l) != 2 {
+		return "?"
+	}
+	for name, v := range vf12Ports {
+		if a, ok1 := l[0].(float64); ok1 {
+			if b, ok2 := l[1].(float64); ok2 && uint(a) == v[0] && uint(b) == v[1] {
+				return name
+			}
+		}
+	}
+	return "?"
 }
 
 type vf12View struct {
@@ -126,6 +146,9 @@ func vf12Body(op vf12Op) []byte {
 		}
 		if !vf12Unset(pl.Override) {
 			m["overridePublisher"] = pl.Override == "t"
+		}
+		if !vf12Unset(pl.Ports) {
+			m["rtspUDPSourcePortRange"] = vf12Ports[pl.Ports]
 		}
 		switch pl.Bad {
 		case "value":
@@ -219,17 +242,18 @@ func (c *vf12Client) observe() (vf12View, vf12Rest) {
 		st, p := get("/v3/config/paths/get/" + n)
 		if st != 200 {
 			if n != "ref" {
-				v.Paths[n] = vf12PathView{MaxReaders: "absent", Override: "absent"}
+				v.Paths[n] = vf12PathView{MaxReaders: "absent", Override: "absent", Ports: "absent"}
 				r.Paths[n] = "absent"
 			}
 			continue
 		}
-		dg := vf12Digest(p, "maxReaders", "overridePublisher", "name", "recordDeleteAfter")
+		dg := vf12Digest(p, "maxReaders", "overridePublisher", "name", "recordDeleteAfter", "rtspUDPSourcePortRange")
 		if n == "ref" {
 			r.Path = dg
 			continue
 		}
-		v.Paths[n] = vf12PathView{MaxReaders: vf12Num(p["maxReaders"]), Override: map[bool]string{true: "t", false: "f"}[p["overridePublisher"] == true]}
+		v.Paths[n] = vf12PathView{MaxReaders: vf12Num(p["maxReaders"]), Override: map[bool]string{true: "t", false: "f"}[p["overridePublisher"] == true],
+			Ports: vf12PortsName(p["rtspUDPSourcePortRange"])}
 		r.Paths[n] = dg
 	}
 	return v, r
